@@ -6,8 +6,9 @@ var c19Queries = []string{
 	"SELECT a FROM t WHERE vfault(a) > ?",
 	"SELECT vfault(a) AS v FROM t WHERE a > ?",
 	"SELECT a, COUNT(*) AS n FROM t WHERE a > ? GROUP BY a HAVING vfault(1) = 1",
-	"SELECT * FROM t x JOIN t y ON vfault(x.a) = y.a WHERE x.a > ?",
-	"SELECT * FROM t x JOIN t y ON vfault(x.a) < y.a WHERE x.a > ?",
+	"SELECT * FROM t x JOIN t y ON x.a <= y.a AND vfaultb() WHERE x.a > ?",
+	"SELECT * FROM t x LEFT JOIN t y ON x.a >= y.a AND vfaultb() WHERE x.a > ?",
+	"SELECT * FROM t x PARALLEL JOIN t y ON x.a <= y.a AND vfaultb() WHERE x.a > ?",
 	"WITH c AS (SELECT vfault(a) AS a FROM t WHERE a > ?) SELECT a FROM c",
 	"SELECT u.v AS v FROM (SELECT vfault(a) AS v FROM t WHERE a > ?) u",
 	"SELECT a, (SELECT vfault(p) AS f FROM items) AS sub FROM t WHERE a > ?",
@@ -31,6 +32,8 @@ func H_C19_faults() {
 	n := verif.Choose("rows", maxRows(2, 3)) + 1
 	faultAt, faultCalls = verif.Choose("fault-at", 5), 0
 	RegisterFunction("vfault", faultFunc)
+	RegisterFunction("vfaultb", faultBoolFunc)
+	verif.Opt("maporder", 1)
 	doc, rows := nestedDoc(n, 1)
 	for _, r := range rows {
 		r["s"] = "str"
@@ -57,4 +60,12 @@ func H_C19_faults() {
 		verif.Assert(verif.Eq(r1, r2), "follow-up-same-result")
 	}
 	verif.Reach("end")
+}
+
+func faultBoolFunc(q *Query, cur Map, o *FunctionOptions, args []any) (any, error) {
+	faultCalls++
+	if faultCalls == faultAt {
+		return nil, EXPECTATION_FAILED.Extend("injected fault")
+	}
+	return true, nil
 }
